@@ -296,8 +296,13 @@ func init() {
 			if c%3 == 0 {
 				o.midRender = []string{"text", "markdown", "csv"}
 			}
+			hostileSizes := c%4 == 1
+			if hostileSizes {
+				// few cells, most of them declaring sizes that disagree with their (multi-line) text, always aligned
+				o.alpha, o.maxCols, o.maxRows, o.sizeEvery = alphaTextLines, 2, 3, 2
+			}
 			t := g.buildTable(o)
-			if g.r.chance(1, 3) {
+			if hostileSizes || g.r.chance(1, 3) {
 				g.assignProps(t, "align", alignVals)
 			}
 			if g.r.chance(1, 3) {
@@ -412,6 +417,13 @@ func init() {
 				refs = append(refs, cur)
 			}
 			var viol []string
+			// a user decoration under a name that lower-casing alters: the wrapper method set to it by name,
+			// the bare name and the texttable.-prefixed name through auto must all select the same decoration
+			userDecor := ""
+			if r.chance(1, 3) {
+				userDecor = r.pick([]string{"Boxy", "MyStyle", "ASCII-Simple", "light\xc4", "Utf8-Heavy", "K"})
+				g.do("register " + hx(userDecor) + " " + g.customDecor())
+			}
 			kept := map[string]string{} // (format, ref) -> the wrapper used in round 0, reused after the change
 			for round := 0; round < 2; round++ {
 				if round == 1 {
@@ -460,17 +472,27 @@ func init() {
 							}
 							kept[k+"/"+ref] = w
 						}
+						byName := k == "text" && userDecor != ""
+						if byName {
+							g.do("setdecornamed " + w + " " + hx(userDecor))
+						}
 						cl, f := parseRes(g.do("render " + w))
 						cmp("method RenderTo via "+ref, cl, f["out"])
 						cl, f = parseRes(g.do("renderstr " + w))
 						cmp("method Render via "+ref, cl, f["str"])
-						res := g.do("prender " + k + " " + ref)
-						cl, f = parseRes(res)
-						cmp("package Render via "+ref, cl, f["str"])
-						cmp("package RenderTo via "+ref, f["res2"], f["out2"])
+						var res string
+						if !byName { // the package-level functions render with the default decoration
+							res = g.do("prender " + k + " " + ref)
+							cl, f = parseRes(res)
+							cmp("package Render via "+ref, cl, f["str"])
+							cmp("package RenderTo via "+ref, f["res2"], f["out2"])
+						}
 						style := map[string]string{"csv": "csv", "json": "JSON", "markdown": "markdown.gfm", "html": "Html", "text": "texttable"}[k]
 						if k == "text" && r.chance(1, 2) {
 							style = "utf8-heavy"
+						}
+						if byName {
+							style = r.pick([]string{"", "texttable.", "TextTable."}) + userDecor
 						}
 						res = g.do("autorender " + ref + " " + hx(style))
 						cl, f = parseRes(res)
